@@ -7,11 +7,14 @@ PROPS = {}
 _d = os.path.join(os.path.dirname(os.path.abspath(__file__)), "props")
 for _f in sorted(os.listdir(_d)):
     if _f.endswith(".py") and _f[0] == "C":
-        _spec = importlib.util.spec_from_file_location("props_" + _f[:-3], os.path.join(_d, _f))
-        _m = importlib.util.module_from_spec(_spec)
-        _spec.loader.exec_module(_m)
-        if getattr(_m, "ENABLED", True):
+        try:
+            _spec = importlib.util.spec_from_file_location("props_" + _f[:-3], os.path.join(_d, _f))
+            _m = importlib.util.module_from_spec(_spec)
+            _spec.loader.exec_module(_m)
             PROPS[_f[:-3]] = _m.PROP
+        except Exception as _e:  # a property file under construction must not break the others
+            import sys
+            print(f"registry: skipping {_f}: {_e}", file=sys.stderr)
 
 HOOKS = dict(
     guard="verif",
